@@ -211,6 +211,16 @@ From YV Require Import Capi.Pending.
 Lemma pending_table_ok_now : pending_table_ok = true.
 Proof. vm_compute. reflexivity. Qed.
 
+(* YRX_INVALID_STATE is returned exactly by the functions the header documents *)
+Lemma state_guards_lemma : forall f : fn,
+  has_invalid_state f = true <-> In (fn_name f) documented_invalid_state.
+Proof.
+  intros f. split.
+  - intros H. destruct f; vm_compute in H; try discriminate H; vm_compute; tauto.
+  - intros H. destruct f; vm_compute in H; vm_compute; try reflexivity;
+      repeat (destruct H as [H|H]; [discriminate H|]); contradiction.
+Qed.
+
 (* after any whole-buffer scanning call, accepted or refused, no module data is pending *)
 Lemma scan_consumes_data_lemma : forall s k, whole_buffer k = true -> p_data (scan_next s k) = None.
 Proof.
@@ -228,9 +238,9 @@ Proof.
   induction l as [|st r IH]; intros s Hs Hl; [exact Hs|].
   cbn [forallb] in Hl. apply andb_true_iff in Hl. destruct Hl as [H1 H2].
   cbn [prun]. apply IH; [|exact H2].
-  destruct st as [d a|o a|g|k inv d o g]; cbn [sets_data negb] in H1; try discriminate H1; cbn [pstep_next].
+  destruct st as [d a|o a|g a|k inv d o g]; cbn [sets_data negb] in H1; try discriminate H1; cbn [pstep_next].
   - destruct (p_block s); [exact Hs|exact Hs].
-  - exact Hs.
+  - destruct a; exact Hs.
   - unfold scan_next. destruct (whole_buffer k); cbn [p_data]; [destruct (consumes_data _); [reflexivity|exact Hs]|exact Hs].
 Qed.
 
